@@ -14,6 +14,12 @@ CLAIMS = {
             'comparison are proved total preorders with NULLs last. Sorting itself (std sort_by given a total preorder), DISTINCT and the index-order path are not under contract.',
             _B_NOTE, 'contract-based deductive verification: Verus on mechanically extracted functions + Kani on scalar comparison kernels', 'DESIGN.md 5/C08'),
 }
+CLAIMS['C27'] = ('proof',
+    'The statement is, clause for clause, the contract proved by Verus (all byte strings, no bound) on the real text of FrontendMessage::decode, decode_startup and '
+    'read_cstring: no callee precondition violated (bytes-crate panics are preconditions) and no arithmetic overflow; Ok(None) only for an incomplete frame and then the buffer is '
+    'unchanged; otherwise exactly the declared frame is consumed and the result is the specification decoding of that frame (or Err for an undecodable frame); plus the round-trip lemma '
+    'decode(encode(m) ++ rest) = (m, rest) over the contract. The tokio read loop in connection.rs is not under contract.',
+    _B_NOTE, 'contract-based deductive verification: Verus on mechanically extracted functions over an assumed-contract BytesMut', 'DESIGN.md 5/C27')
 NOT_APPLICABLE = {
     'C04': 'concurrency/rayon scheduling: Kani has no threads, Verus needs permission-typed code; the determinism-relevant comparator laws are claimed under C21/C08',
     'C05': 'every anchor is an AST-to-plan transformation or a join operator over Database/evaluator state: AST walks do not finish in CBMC and the code is outside the Verus subset',
